@@ -273,6 +273,8 @@ class Scheduler(object):
         if not self.visible(kind, sql, con):
             self.local_ops += 1
             return
+        if kind in ('commit', 'rollback') and not (con is not None and con.in_transaction):
+            kind += '(no-op)'                  # only reachable with points='all'
         self.point((kind, sql, canon_args(args)), None)
     def worker(self, i):
         self.idents[threading.get_ident()] = i
